@@ -155,9 +155,10 @@ template <class K> struct World {
         else { Destroy_SuperMatrix_Store(&s.L); Destroy_SuperMatrix_Store(&s.U); }
         s.haveLU = false; s.lu_valid = false;
     }
-    // after an out-of-space return the factor objects are in no documented state: the caller can only drop them
+    // after an out-of-space return of a fresh factorization there are no factor objects; after one of a SamePattern_SameRowPerm
+    // call the caller still owns the L and U it handed in and releases them the documented way
     void drop_lu_after_nospace(Slot<K> &s, bool was_readopted) {
-        if (was_readopted && s.haveLU) { Destroy_SuperMatrix_Store(&s.L); Destroy_SuperMatrix_Store(&s.U); }
+        if (was_readopted && s.haveLU) destroy_lu(s);
         s.haveLU = false; s.lu_valid = false;
     }
     void destroy_slot(Slot<K> &s) {
